@@ -192,6 +192,177 @@ def forward_body(body, ref_names):
     return done
 
 
+def _is_range_lit(e):
+    e = T.peel(e)
+    if e.get("k") != "struct" or not ((e.get("res") or {}).get("path") or "").endswith("ops::Range"):
+        return None
+    f = {x["name"]: x["e"] for x in e.get("fields", [])}
+    return (f["start"], f["end"]) if set(f) == {"start", "end"} else None
+
+
+def _bin(op, l, r, ty, like):
+    return {"k": "binary", "id": like.get("id"), "ty": ty, "sp": like.get("sp"), "op": op, "l": l, "r": r}
+
+
+def range_ops(body, muts):
+    """Observations of a range literal with pure ends are the ends themselves: `(a..b).start` is `a`, `(a..b).clone()` is `a..b`,
+    `(a..b).contains(p)` is `a <= *p && *p < b`, and `(a..b).len()` is `b - a` where an enclosing branch has established
+    `a <= b` (otherwise it is left alone: the length of an empty range is 0, not a wrapped difference)."""
+    done = 0
+    changed = True
+    while changed:
+        changed = False
+        for n, parents in T.walk(body["tree"]):
+            k = n.get("k")
+            if k == "field" and n.get("name") in ("start", "end"):
+                r = _is_range_lit(n["base"])
+                if r and all(_pure(x, muts) for x in r):
+                    rep = copy.deepcopy(r[0] if n["name"] == "start" else r[1])
+                    n.clear()
+                    n.update(rep)
+                    changed = True
+                    done += 1
+                    break
+            if k != "mcall" or "ref_mut" in (n["recv"].get("adj") or []):
+                continue
+            r = _is_range_lit(n["recv"])
+            if not r or not all(_pure(x, muts) for x in r):
+                continue
+            a, b = r
+            if n["name"] == "clone" and not n["args"]:
+                rep = copy.deepcopy(T.peel(n["recv"]))
+            elif n["name"] == "contains" and len(n["args"]) == 1:
+                arg = T.peel(n["args"][0])
+                if arg.get("k") == "addr_of" and not arg.get("mut"):
+                    x = arg["e"]
+                elif (arg.get("ty") or "").startswith("&") and _pure(arg, muts):
+                    x = {"k": "unary", "id": arg.get("id"), "ty": (arg.get("ty") or "&usize")[1:], "sp": arg.get("sp"), "op": "*", "e": arg}
+                else:
+                    continue
+                if not _pure(x, muts):
+                    continue
+                ety = T.peel(a).get("ty") or "usize"
+                rep = _bin("&&", _bin("<=", copy.deepcopy(a), copy.deepcopy(x), "bool", n), _bin("<", copy.deepcopy(x), copy.deepcopy(b), "bool", n), "bool", n)
+            elif n["name"] == "len" and not n["args"] and _ordered_here(a, b, n, parents):
+                rep = _bin("-", copy.deepcopy(b), copy.deepcopy(a), n.get("ty") or "usize", n)
+                rep["range_len"] = True      # cannot underflow: a <= b was established by the enclosing branch
+            else:
+                continue
+            n.clear()
+            n.update(rep)
+            changed = True
+            done += 1
+            break
+    return done
+
+
+def _ordered_here(a, b, node, parents):
+    """An enclosing `if` has decided `a <= b` for the branch that `node` sits in (a, b immutable locals)."""
+    if T.local_of(a) is None or T.local_of(b) is None:
+        return False
+    ra, rb = T.render(a), T.render(b)
+    yes = {"(%s <= %s)" % (ra, rb), "(%s >= %s)" % (rb, ra)}
+    no = {"(%s > %s)" % (ra, rb), "(%s < %s)" % (rb, ra)}
+    chain = list(parents) + [node]
+    for i, p in enumerate(chain[:-1]):
+        if p.get("k") != "if":
+            continue
+        nxt = chain[i + 1]
+        cond = T.peel(p["cond"])
+        in_then = nxt is p["then"] or any(x is nxt for x in T.nodes(p["then"]))
+        in_else = p.get("els") is not None and (nxt is p["els"] or any(x is nxt for x in T.nodes(p["els"])))
+        if in_then and any(T.render(c) in yes for c in _juncts(cond, "&&")):
+            return True
+        if in_else and any(T.render(c) in no for c in _juncts(cond, "||")):
+            return True
+    return False
+
+
+def _juncts(c, op):
+    c = T.peel(c)
+    if c.get("k") == "binary" and c.get("op") == op:
+        return _juncts(c["l"], op) + _juncts(c["r"], op)
+    return [c]
+
+
+PLACE_METHODS = {"last_mut", "first_mut", "get_mut", "unwrap", "expect", "as_mut"}
+
+
+def _replayable_place(e, muts):
+    """`pairs.last_mut().unwrap()`: a path to a place - evaluating it later instead of now changes nothing but the moment
+    a failing `unwrap` is noticed (the exclusive borrow it holds keeps everybody else away in between)."""
+    e = T.peel(e)
+    if e.get("k") == "mcall" and e["name"] in PLACE_METHODS:
+        return _replayable_place(e["recv"], muts) and all(_pure(a, muts) for a in e.get("args", []))
+    if e.get("k") in ("field", "index"):
+        return _replayable_place(e["base"], muts) and (e.get("k") == "field" or _pure(e["idx"], muts))
+    return T.local_of(e) is not None
+
+
+def project_mut_tuple_lets(body, ref_names, muts):
+    """`let (_, value) = pairs.last_mut().unwrap(); *value = v;` is `pairs.last_mut().unwrap().1 = v;` - a new name for one
+    component of a tuple behind `&mut`, used once, in the next statement, through `*name`."""
+    done = 0
+    for blk in T.nodes(body["tree"], "block"):
+        stmts = blk.get("stmts", [])
+        i = 0
+        while i + 1 < len(stmts) or (i + 1 == len(stmts) and blk.get("tail") is not None):
+            st = stmts[i]
+            nxt = stmts[i + 1] if i + 1 < len(stmts) else blk["tail"]
+            i += 1
+            if st.get("k") != "let" or st.get("init") is None or st.get("els") is not None or st["pat"].get("p") != "tuple":
+                continue
+            init = T.peel(st["init"])
+            if not (init.get("ty") or "").startswith("&mut (") or not _replayable_place(init, muts):
+                continue
+            pats = st["pat"]["pats"]
+            if not all(q.get("p") in ("wild", "bind") and q.get("sub") is None for q in pats):
+                continue
+            binds = {q["id"]: k for k, q in enumerate(pats) if q.get("p") == "bind"}
+            if not binds:
+                continue
+            uses = [(n, ps) for n, ps in T.walk(body["tree"]) if n.get("k") == "path" and T.local_of(n) in binds]
+            here = [n for n in T.nodes(nxt) if n.get("k") == "path" and T.local_of(n) in binds]
+            if len(uses) != 1 or len(here) != 1 or uses[0][0] is not here[0]:
+                continue
+            u, ps = uses[0]
+            par = ps[-1] if ps else None
+            if par is None or par.get("k") != "unary" or par.get("op") != "*" or par.get("overloaded"):
+                continue
+            base = copy.deepcopy(init)
+            base["adj"] = ["deref"]
+            base["aty"] = (init.get("ty") or "")[len("&mut "):]
+            keep = {k: par[k] for k in ("id", "ty", "sp") if k in par}
+            par.clear()
+            par.update(keep)
+            par.update({"k": "field", "name": str(binds[T.local_of(u)]), "base": base})
+            stmts.remove(st)
+            i -= 1
+            done += 1
+    return done
+
+
+def split_tuple_lets(body, ref_names):
+    """`let (color, text, reset) = (a, b, c);` is `let color = a; let text = b; let reset = c;` (same order of evaluation)."""
+    done = 0
+    for blk in T.nodes(body["tree"], "block"):
+        out = []
+        for st in blk.get("stmts", []):
+            init = T.peel(st["init"]) if st.get("k") == "let" and st.get("init") is not None else None
+            if init is not None and st.get("els") is None and st["pat"].get("p") == "tuple" and init.get("k") == "tuple" \
+                    and len(init.get("es", [])) == len(st["pat"].get("pats", [])) \
+                    and all(q.get("p") in ("bind", "wild") and q.get("sub") is None and "Ref" not in (q.get("mode") or "").split(",")[0] for q in st["pat"]["pats"]) \
+                    and any(q.get("p") == "bind" and q["name"] not in ref_names for q in st["pat"]["pats"]):
+                for q, e in zip(st["pat"]["pats"], init["es"]):
+                    out.append({"k": "let", "sp": st.get("sp"), "pat": q, "pty": q.get("ty"), "init": e, "has_ty": False, "els": None,
+                                "inlined_param": st.get("inlined_param"), "split_from_tuple": True})
+                done += 1
+            else:
+                out.append(st)
+        blk["stmts"] = out
+    return done
+
+
 def forward_program(program, ref_binders):
     out = {}
     for b in program.user_bodies():
@@ -203,8 +374,15 @@ def forward_program(program, ref_binders):
             continue
         names = {x[2] for x in r}
         d = forward_body(b, names)
+        if d and split_tuple_lets(b, names):
+            d = dict(d, **forward_body(b, names))
+            d["<tuple pattern over a tuple>"] = "component lets"
+        if project_mut_tuple_lets(b, names, _mutables(b)):
+            d = dict(d, **{"<component of a tuple behind &mut>": "place read directly"})
         if split_option_arguments(b):
             d = dict(d, **{"<map_or argument>": "case split"})
+        if d and range_ops(b, _mutables(b)):
+            d = dict(d, **{"<range literal>": "ends read directly"})
         b["forwarded"] = d
         if d:
             out[T.short_path(b["def_path"])] = d
